@@ -47,6 +47,9 @@ def obligations(tier):
         CH("contains_on_every_property_kind", H, "contains_kinds", t, mode="E1s", functions=FF[:2] + FM[:1],
            bounds="26 (document, path, value) cases: strings (substring), dictionaries (key; value for a dict filter value), lists (any element), dotted paths through "
                   "dictionaries and lists x dict / library object / MemorySource / FileSystemStore x with a contradicting second filter"),
+        CH("filters_on_defaulted_properties", H, "defaulted_properties", t, mode="E1s", functions=FF[:2] + ["stix2.datastore.filesystem._check_object_from_file"], stubs=[FSS],
+           bounds="7 filters on revoked / defanged / is_family, singly and in pairs, over 5 objects of which 3 hold the default implicitly x files written by the sink / by hand "
+                  "(defaults absent) x query argument / attached / composite; filesystem = memory = naive"),
         CH("composite_filter_routes", H, "routes", t * 2, mode="E1s", functions=FM + FF[2:],
            bounds="2 filters from 5 (one separating the versions of an id) x 4 placements each (query, member A, member B, composite) x member order x 3 partitions of the population; query, all_versions and get of members and composite"),
     ]
